@@ -41,4 +41,16 @@ def itoa (k : Nat) : Str := (toString k).toList.map Char.toNat
 /-- `strconv.FormatInt(v, 10)` -/
 def renderInt (v : Int) : Str := if v < 0 then 45 :: itoa v.natAbs else itoa v.natAbs
 
+/-! ### booleans: `strconv.ParseBool` -/
+
+def wB (s : String) : Str := s.toList.map Char.toNat
+
+def trueTexts : List Str := [wB "1", wB "t", wB "T", wB "TRUE", wB "true", wB "True"]
+def falseTexts : List Str := [wB "0", wB "f", wB "F", wB "FALSE", wB "false", wB "False"]
+
+def parseBool (s : Str) : Option Bool :=
+  if trueTexts.contains s then some true else if falseTexts.contains s then some false else none
+
+def renderBool (b : Bool) : Str := if b then wB "true" else wB "false"
+
 end OapiVerif.IntParse
